@@ -90,7 +90,7 @@ Print Assumptions C11_replace_refuted.
 
 Theorem C11_txn_is_C17 : forall cnd thn rb cp ca,
   cnd <> Absent ->
-  let '(w, _, r) := runk tcall unit tworld texec (fun _ => tt) (txn_of cnd thn rb) nil None in
+  let '(w, _, r) := runk tcall unit tworld texec (fun _ => tt) (fun _ => true) (txn_of cnd thn rb) nil None in
   w = map (fun e => (who e, flag e)) (fst (Txn.txn cnd thn rb cp ca)) /\
   tresult r cnd = snd (Txn.txn cnd thn rb cp ca).
 Proof. exact txn_matches_C17. Qed.
